@@ -141,11 +141,24 @@ func TestC19(t *testing.T) {
 			}
 		}
 	}
+	// a third one holds a language next to two of its regional variants: three different keys, none standing in for another
+	tagsR := []ap.LangRef{"en", "en-US", "en-GB"}
+	var opsR []nlOp
+	for _, k := range []string{"set", "append", "add"} {
+		for _, tg := range tagsR {
+			for _, tx := range texts2 {
+				opsR = append(opsR, nlOp{k, tg, tx})
+			}
+		}
+	}
 	if r.WantLayer("histories", true) {
 		total := 0
-		for pass, ops := range [][]nlOp{ops, opsE} {
+		for pass, ops := range [][]nlOp{ops, opsE, opsR} {
 			maxLen := r.Pick(4, 5)
 			tags3 := tags3
+			if pass == 2 {
+				maxLen, tags3 = r.Pick(3, 4), tagsR
+			}
 			if pass == 1 {
 				maxLen, tags3 = r.Pick(3, 4), tagsE
 			}
@@ -343,7 +356,7 @@ func TestC19(t *testing.T) {
 		r.Exhaustive("equality", !r.Replaying())
 	}
 
-	tags4 := []ap.LangRef{ap.NilLangRef, "en", "fr", "de", ""}
+	tags4 := []ap.LangRef{ap.NilLangRef, "en", "fr", "de", "", "en-US", "fr-CA-x"}
 	texts4 := []string{"one", "two", "", "drei"}
 	r.Rapid(t, "random", r.Pick(3000, 20000), func(t *rapid.T) {
 		nops := rapid.IntRange(1, 30).Draw(t, "n")
